@@ -105,7 +105,12 @@ theorem step_spec (H : Ham) (s : SState) (inv : SInv H s) (op : Op) :
     exact ⟨by rw [h1.1, h2.1], h1.2⟩
   | lateral g1 g2 =>
     simp only [answer, step, hs, SState.init]
-    exact ⟨trivial, inv⟩
+    cases lateral H g1 g2 with
+    | error e => exact ⟨rfl, inv⟩
+    | ok m =>
+      refine ⟨rfl, ?_⟩
+      have := SInv_touched H s inv (s.touched ++ [m.anc])
+      simpa only [hs] using this
   | profileFull =>
     have h1 := profileFullS_spec H s.H.tree.allTaxa s inv
     have h2 := profileFullS_spec H H.tree.allTaxa _ (SInv_init H)
